@@ -88,6 +88,9 @@ func (e *Enc) call(fr *Frame, x *ssa.Call, st *State) {
 		return
 	}
 	if con := e.contractAtCall(callee); con != nil && !(con.inlineOK && e.inlinable(callee)) {
+		if con.opts["evaluates"] == "true" {
+			e.lazyViolation(fr, x, st, "call of "+shortFuncName(callee)+", which evaluates list elements")
+		}
 		e.applyContract(fr, x, callee, con, args, st, shortFuncName(callee))
 		return
 	}
@@ -95,6 +98,7 @@ func (e *Enc) call(fr *Frame, x *ssa.Call, st *State) {
 		e.inlineCall(fr, x, callee, args, nil, st)
 		return
 	}
+	e.lazyViolation(fr, x, st, "call of "+shortFuncName(callee)+" (no contract: unknown effect)")
 	e.note("call without contract, not inlinable: " + shortFuncName(callee))
 	e.derivedStackNeed(fr, x, callee, args, st)
 	e.havocResults(fr, x, "call_"+callee.Name())
@@ -479,9 +483,31 @@ func (e *Enc) contractError(fr *Frame, what string, err error) {
 
 // ---------- dynamic calls ----------
 
+// lazyConstructor: the unit under verification is declared `option constructs-lazily`: its own body (including what it
+// inlines, excluding the function literals it creates) must not evaluate anything - no call of a function value, no call
+// of a function that evaluates list elements, no call whose effect is unknown.
+func (e *Enc) lazyViolation(fr *Frame, x *ssa.Call, st *State, what string) {
+	con := e.topCon()
+	if con == nil || con.opts["constructs-lazily"] != "true" {
+		return
+	}
+	for f := fr; f != nil; f = f.parent {
+		if f.con != nil && f.con.kind == "closure-body" {
+			return // inside a literal verified at its creation site: that code runs later
+		}
+	}
+	site := e.srcText(fr.fn, x.Pos(), isCallExpr)
+	if len(site) > 48 {
+		site = site[:48]
+	}
+	e.lazyReach = append(e.lazyReach, st.reach)
+	e.lazyWhat = append(e.lazyWhat, site+": "+what)
+}
+
 func (e *Enc) dynamicCall(fr *Frame, x *ssa.Call, st *State, args []Val) {
 	c := x.Common()
 	f := e.val(fr, c.Value)
+	e.lazyViolation(fr, x, st, "call of a function value")
 	if tc := e.L.typeContract(c.Value.Type()); tc != nil {
 		e.applyTypeContract(fr, x, tc, f, args, st)
 		return
@@ -599,6 +625,9 @@ func (e *Enc) invoke(fr *Frame, x *ssa.Call, st *State, recv Val, args []Val) {
 	}
 	if ic := e.L.ifaceContract(c.Value.Type(), c.Method.Name()); ic != nil {
 		ic.used = true
+		if ic.opts["evaluates"] == "true" {
+			e.lazyViolation(fr, x, st, "call of "+ic.key+", which evaluates list elements")
+		}
 		sig := c.Method.Type().(*types.Signature)
 		pre := st.clone()
 		mk := func(results []*Term, s *State) *evalEnv {
@@ -630,6 +659,7 @@ func (e *Enc) invoke(fr *Frame, x *ssa.Call, st *State, recv Val, args []Val) {
 		}
 		return
 	}
+	e.lazyViolation(fr, x, st, "call of an interface method without contract (unknown effect)")
 	e.note("invoke without interface contract: " + c.Value.Type().String() + "." + c.Method.Name())
 	e.havocResults(fr, x, "inv_"+c.Method.Name())
 	for _, a := range args {
